@@ -483,6 +483,8 @@ def apply_mutation(m, built):
         found = find_facts(s, m["name"], m["args"])
         for n, (k, g) in enumerate(found):
             how = m.get("how", "discard")
+            if g not in s.state_predicates[k]:
+                how = "new-set"     # the fact object was edited in place: the set cannot find it by hash any more
             if how == "discard":
                 s.state_predicates[k].discard(g)
             elif how == "remove":
@@ -509,6 +511,17 @@ def apply_mutation(m, built):
         for _, g in found:
             g.name = m["new"]
         return {"found": len(found)}
+    if kind == "remap-fact":        # the fact object gets a new object_mapping dict (same parameters, other objects)
+        found = find_facts(s, m["name"], m["args"])
+        for _, g in found:
+            g.object_mapping = {p: o for p, o in zip(list(g.object_mapping), m["new_args"])}
+        return {"found": len(found)}
+    if kind == "remap-fluent":      # the fluent object gets a new signature dict (other objects, the same types)
+        keys = find_fluents(s, m["name"], m["args"])
+        for k in keys:
+            f = s.state_fluents[k]
+            f.signature = {o: t for o, t in zip(m["new_args"], list(f.signature.values()))}
+        return {"keys": keys}
     if kind == "set-value":
         keys = find_fluents(s, m["name"], m["args"])
         for k in keys:
